@@ -10,6 +10,7 @@
 package main
 
 import (
+	"bytes"
 	"encoding/hex"
 	"fmt"
 	"math/rand/v2"
@@ -74,7 +75,7 @@ func split(r *rand.Rand, stream []byte, bounds []int) [][]byte {
 	switch r.IntN(7) {
 	case 0: // one chunk
 	case 1: // byte at a time
-		if n <= 96 {
+		if n <= 40 {
 			for i := 1; i < n; i++ {
 				cuts = append(cuts, i)
 			}
@@ -167,7 +168,7 @@ func gen(r *rand.Rand, tier string, i int) input {
 			if r.IntN(2) == 0 { // what clients send
 				t = vh.Pick(r, uint8(1), 3, 3, 3, 6, 7, 9, 10)
 			}
-			f := wkp.GenFrame(r, t, v, wkp.GenOpts{Big: r.IntN(40) == 0})
+			f := wkp.GenFrame(r, t, v, wkp.GenOpts{Big: r.IntN(40) == 0, Short: r.IntN(4) != 0})
 			if b, ok := encodeOK(f, v); ok && len(b) < 1500 {
 				in.Frames = append(in.Frames, f)
 				stream = append(stream, b...)
@@ -239,6 +240,7 @@ type recAdapter struct {
 	real *adapterpkg.Adapter
 	mu   sync.Mutex
 	sess session.Session
+	it   *wkp.Interner
 	// batches rendered at Decode time (payloads of non-SEND frames alias the buffer)
 	batches []string
 }
@@ -257,16 +259,16 @@ func (a *recAdapter) Decode(_ session.Session, in []byte) ([]frame.Frame, int, e
 	frames, n, err := a.real.Decode(sess, in)
 	if err == nil && n > 0 {
 		a.mu.Lock()
-		a.batches = append(a.batches, framesCoq(frames))
+		a.batches = append(a.batches, framesCoq(a.it, frames))
 		a.mu.Unlock()
 	}
 	return frames, n, err
 }
 
-func framesCoq(frames []frame.Frame) string {
+func framesCoq(it *wkp.Interner, frames []frame.Frame) string {
 	return vh.ListOf(frames, func(f frame.Frame) string {
 		fi, m := wkp.FromFrame(f)
-		return vh.Pair(fi.Coq(), m.Coq())
+		return vh.Pair(it.Ref(fi.Coq()), m.Coq())
 	})
 }
 
@@ -321,7 +323,7 @@ func newSess(sv int) session.Session {
 
 // ---- run -----------------------------------------------------------------------------
 
-func wholeDecode(sv int, whole []byte) (term string, class string, detach bool, alias []string) {
+func wholeDecode(it *wkp.Interner, sv int, whole []byte) (term string, class string, detach bool, alias []string) {
 	defer func() {
 		if r := recover(); r != nil {
 			term, class, detach = "APanic", "panic", true
@@ -332,7 +334,7 @@ func wholeDecode(sv int, whole []byte) (term string, class string, detach bool, 
 	if err != nil {
 		return "AErr", "err", true, nil
 	}
-	term = vh.App("AOk", framesCoq(frames), vh.N(uint64(n)))
+	term = vh.App("AOk", framesCoq(it, frames), vh.N(uint64(n)))
 	// overwrite the buffer the frames were decoded from: SEND payloads must have been detached
 	before := make([]string, len(frames))
 	for i, f := range frames {
@@ -372,16 +374,25 @@ func run(in input) vh.Result {
 		chunks[i] = b
 		whole = append(whole, b...)
 	}
-	// the implementation's own encoding of the claimed frames
+	it := &wkp.Interner{}
+	// the implementation's own encoding of the claimed frames; printed as a slice of the
+	// stream when it literally is one (same bytes, shorter term)
+	off := 0
 	encs := vh.ListOf(in.Frames, func(f wkp.FrameIn) string {
 		b, ok := encodeOK(f, v)
 		if !ok {
-			return "EncErr"
+			return "(EncLit EncErr)"
 		}
-		return vh.App("EncOk", wkp.CoqBytes(b))
+		if off >= 0 && off+len(b) <= len(whole) && bytes.Equal(b, whole[off:off+len(b)]) {
+			t := vh.App("EncAt", vh.N(uint64(off)), vh.N(uint64(len(b))))
+			off += len(b)
+			return t
+		}
+		off = -1
+		return vh.App("EncLit", vh.App("EncOk", wkp.CoqBytes(b)))
 	})
 
-	wholeTerm, wclass, detach, alias := wholeDecode(in.SV, whole)
+	wholeTerm, wclass, detach, alias := wholeDecode(it, in.SV, whole)
 
 	// the real gateway server, chunk by chunk
 	limit := in.Limit
@@ -393,6 +404,7 @@ func run(in input) vh.Result {
 	id := g.nextID
 	g.rec.mu.Lock()
 	g.rec.sess = newSess(in.SV)
+	g.rec.it = it
 	g.rec.batches = nil
 	g.rec.mu.Unlock()
 	g.factory.MustOpen("l", id)
@@ -402,6 +414,7 @@ func run(in input) vh.Result {
 	}
 	steps := make([]string, 0, len(chunks))
 	closedAtEnd := false
+	var received []byte
 	for _, c := range chunks {
 		data := append([]byte(nil), c...)
 		g.factory.MustData("l", id, data)
@@ -417,7 +430,12 @@ func run(in input) vh.Result {
 			inbound = nil
 		}
 		closedAtEnd = closed
-		steps = append(steps, vh.App("Step", vh.List(batches), wkp.CoqBytes(inbound), vh.B(closed)))
+		received = append(received, c...)
+		inbTerm := vh.App("InBytes", wkp.CoqBytes(inbound))
+		if len(inbound) <= len(received) && bytes.Equal(inbound, received[len(received)-len(inbound):]) {
+			inbTerm = vh.App("InSuffix", vh.N(uint64(len(inbound)))) // same bytes, shorter term
+		}
+		steps = append(steps, vh.App("StepR", vh.List(batches), inbTerm, vh.B(closed)))
 	}
 	if l := g.factory.Listener("l"); l != nil {
 		l.EmitClose(id, nil)
@@ -435,9 +453,9 @@ func run(in input) vh.Result {
 		cls += "/lim"
 	}
 	return vh.Result{
-		Coq: vh.App("C23Case", svTerm, vh.N(uint64(limit)),
-			vh.ListOf(in.Frames, func(f wkp.FrameIn) string { return f.Coq() }), encs,
-			vh.ListOf(chunks, wkp.CoqBytes), wholeTerm, vh.List(steps), vh.B(detach)),
+		Coq: it.Wrap(vh.App("C23Case", svTerm, vh.N(uint64(limit)),
+			vh.ListOf(in.Frames, func(f wkp.FrameIn) string { return it.Ref(f.Coq()) }), encs,
+			vh.ListOf(chunks, wkp.CoqBytes), wholeTerm, vh.List(steps), vh.B(detach))),
 		Obs:     map[string]any{"whole": wholeTerm, "steps": steps, "detach": detach, "alias": alias},
 		Class:   cls,
 		Trivial: len(whole) == 0,
